@@ -282,10 +282,10 @@ func decodeValue(dec valueDecoder, param string, sm *openapi3.SerializationMetho
 				break
 			}
 			// a branch without a type (constraints only) decodes to no value: keep what a typed branch gave
-			if v != nil {
+			if !isNilValue(v) {
 				// object branches each decode the members they declare: the value has all of them
 				if m, ok := v.(map[string]any); ok {
-					if prev, ok := value.(map[string]any); ok {
+					if prev, ok := value.(map[string]any); ok && prev != nil {
 						for k, x := range m {
 							prev[k] = x
 						}
